@@ -1,7 +1,7 @@
 (* C02 — QoS 1/2 messages are never lost: at-least-once across disconnect and reconnect. *)
 From Coq Require Import List NArith ZArith Bool.
 Import ListNotations.
-From VMQ Require Import model.Flow model.Writer proofs.WriterProofs.
+From VMQ Require Import model.Flow model.Writer proofs.WriterProofs proofs.NoLoss.
 Open Scope N_scope.
 
 (* progress: for every Receive Maximum >= 1, a connected client that has acknowledged everything it
@@ -36,14 +36,23 @@ Proof.
 Qed.
 Print Assumptions C02_queued_persisted.
 
-(* the whole-history conservation statement (every accepted QoS>0 message is pending somewhere or its
-   handshake completed, unless expired) is NOT proved yet; it is checked on every generated history by
-   the correspondence run (model and client log agree packet by packet).  Kept visible: *)
-Definition C02_no_loss_full : Prop :=
-  forall rm oq es w' outs t, (0 <= rm)%Z -> guarded (init rm oq) es -> run (init rm oq) es = (Fine, w', outs) ->
-    In t (flat_map (fun e => match e with ESend _ p => match pk p with KPub 0 => [] | _ => if pexp p then [] else [ptag p] end | _ => [] end) es) ->
-    In t (map ptag (q12 w' ++ qrel w' ++ map snd (pubout w') ++ p_q12 w' ++ p_unack w')) \/
-    In t (map ptag (concat outs)).
+(* NO LOSS, over every history: for every Receive Maximum >= 0 and every guarded history of publish /
+   writer round / acknowledgement / abrupt disconnect / reconnect events (any interleaving, any position of
+   the disconnects), a QoS 1/2 message without expiry that was handed to the session is afterwards still
+   PENDING - queued, waiting for retransmission, in flight, or in the session's persistence entry - unless
+   the client has acknowledged it (PUBACK / PUBREC / PUBCOMP for the identifier it was in flight under).
+   With C02_retransmit_first, C02_redelivery_queued and C02_no_stall: what is pending is transmitted again
+   after every reconnect until that acknowledgement arrives.
+   ([guarded]: the client acknowledges only identifiers it was sent, and announces on reconnect a Receive
+   Maximum that covers what it has not acknowledged - outside that: known finding C03-reconnect-lower-rm.) *)
+Theorem C02_no_loss : forall rm oq es w' outs t,
+  (0 <= rm)%Z -> guarded (init rm oq) es -> run (init rm oq) es = (Fine, w', outs) ->
+  sent_good t es -> P t w' \/ In t (acked (init rm oq) es).
+Proof.
+  intros rm oq es w' outs t Hrm Hg Hr Hs.
+  apply (no_loss t es rm (init rm oq) w' outs (init_inv rm oq Hrm) (init_offempty rm oq) Hg Hr). right. exact Hs.
+Qed.
+Print Assumptions C02_no_loss.
 
 Example C02_nonvacuous :
   let w := snd (fst (run (init 1 false) [ESend 0 (mkPkt (KPub 1) 0 7 None false); EPop 0; ESend 0 (mkPkt (KPub 2) 0 8 None false); EClose 0; EOpen 1])) in
